@@ -53,6 +53,18 @@ def forced(T, d, flat=True):
     return False
 
 
+def align_body(d):
+    """the document an align(...) wraps (the free variable `doc` of its evaluator), None for any other contextual document"""
+    fn = d.fn
+    if not getattr(fn, '__qualname__', '').startswith('align.'):
+        return None
+    try:
+        names = fn.__code__.co_freevars
+        return fn.__closure__[names.index('doc')].cell_contents
+    except Exception:       # noqa
+        return None
+
+
 def is_empty(T, d):
     """renders to nothing in every mode"""
     if d is T.NIL or (isinstance(d, str) and d == ''):
@@ -126,6 +138,12 @@ class Ref:
                     continue
                 self.run(i, bool(self.decide('fill', x)), x)
         elif isinstance(d, T.Contextual):
+            inner = align_body(d)
+            if inner is not None and not self.normalize_ctx:
+                # align / hang, from the statement and independent of the library's evaluator: the aligned document is
+                # rendered with the indentation set to the column at which it starts
+                self.run(self.col, flat, inner)
+                return
             sub = d.fn(indent=i, column=self.col, page_width=self.W, ribbon_width=self.R)
             if self.normalize_ctx:
                 sub = T.normalize_doc(sub)
